@@ -570,10 +570,10 @@ func c16Real(w *W) {
 	if kind == "sub" {
 		mustSet(w, s, mangos.OptionSubscribe, "")
 	}
-	url := tran + "://127.0.0.1:0"
+	url := tran + "://" + loopIP + ":0"
 	var lopts map[string]interface{}
 	if tran == "ws" {
-		url = "ws://127.0.0.1:0/sp"
+		url = "ws://" + loopIP + ":0/sp"
 	}
 	if tran == "tls+tcp" {
 		lopts = map[string]interface{}{mangos.OptionTLSConfig: srvCfg}
